@@ -30,7 +30,7 @@ def plan_st(draw, tier):
         cfg["lp"][1]["epsilon"] = 0
     fam = None
     if cfg["lp"][0] not in ("ThompsonSampling",) and draw(st.booleans()):
-        fam = "T"
+        fam = draw(st.sampled_from(["T", "D"]))   # exact ties, or near-ties that are NOT ties (0.3 vs 0.30000000000000004)
     h = gen.History(draw, cfg, reward_family=fam, grid=draw(st.sampled_from(["int", "small"])), max_rows=8,
                     query_rows=(1, 2, 3, 6))
     h.fit() if draw(st.integers(0, 3)) else h.partial_fit()
